@@ -173,8 +173,12 @@ def classify(hid, h):
     if not fc:
         return ('undecided', 'failure without a failed check (%s)' % (exit_status or st))
     real = []
+    terminates = '__terminates' in hid
     for c in fc:
         d = c['description']
+        if terminates and ('unwinding assertion' in d or 'recursion' in d) and c['status'].lower() == 'failure':
+            real.append(dict(c, description='recursion/loop does not bottom out within the stated bound: ' + d))
+            continue
         if 'unwinding assertion' in d or c['category'] in ('unwind', 'unsupported_construct') \
                 or 'not currently supported' in d or 'is not supported' in d:
             continue
